@@ -134,6 +134,22 @@ func (p *Prog) returnGlobals(h *ssa.Function, withControl bool) map[*ssa.Global]
 			out[g] = true
 		}
 	}
+	// several return statements: which of them executes selects the value, as the branches before a join select a phi's
+	if withControl {
+		var rets []*ssa.Return
+		eachInstr(h, func(b *ssa.BasicBlock, in ssa.Instruction) {
+			if ret, ok := in.(*ssa.Return); ok {
+				rets = append(rets, ret)
+			}
+		})
+		if len(rets) > 1 {
+			for _, ret := range rets {
+				for g := range p.blockInfluence(h, ret).globals {
+					out[g] = true
+				}
+			}
+		}
+	}
 	return out
 }
 
@@ -628,8 +644,17 @@ func ruleInflCastFlag(p *Prog, r *Report) {
 		if !ok {
 			// the value handed back by an unexported helper that was given the input: every non-nil value the helper returns must
 			// itself be a successful strconv.Parse* of its parameter, and the helper is called under the cast flag
+			exIndex := 0
+			var hcall *ssa.Call
 			if ex, isEx := ret.Results[0].(*ssa.Extract); isEx {
 				if hc, isC := ex.Tuple.(*ssa.Call); isC {
+					hcall, exIndex = hc, ex.Index
+				}
+			} else if hc, isC := ret.Results[0].(*ssa.Call); isC {
+				hcall = hc
+			}
+			{
+				if hc := hcall; hc != nil {
 					for _, ch := range p.castHelpers(castFn) {
 						if ch.site != hc {
 							continue
@@ -644,14 +669,17 @@ func ruleInflCastFlag(p *Prog, r *Report) {
 						good, nRet := true, 0
 						eachInstr(ch.h, func(b2 *ssa.BasicBlock, i2 ssa.Instruction) {
 							r2, isR := i2.(*ssa.Return)
-							if !isR || ex.Index >= len(r2.Results) || isNilConst(r2.Results[ex.Index]) {
+							if !isR || exIndex >= len(r2.Results) || isNilConst(r2.Results[exIndex]) {
 								return
 							}
 							nRet++
-							m2, isM := r2.Results[ex.Index].(*ssa.MakeInterface)
+							m2, isM := r2.Results[exIndex].(*ssa.MakeInterface)
 							if !isM {
 								good = false
 								return
+							}
+							if m2.X == ssa.Value(ch.prm) {
+								return // the identical string
 							}
 							e2, isE := m2.X.(*ssa.Extract)
 							if !isE {
